@@ -52,6 +52,9 @@ fn rect(r: &mut Rng, max_data: usize, tag: u32) -> Rect {
         _ => r.range(0, max_data as u64) as usize,
     }
     .min(max_data);
+    // one rectangle in six also carries bits of the flags field that mean nothing (only bit 0, compressed, and bit 10, no
+    // compression header, do)
+    let flags = if r.chance(1, 6) { flags | *r.pick(&[0x0002u16, 0x0100, 0x8000, 0xF0F2, 0x0800, 0x0004]) } else { flags };
     let mut data = r.bytes(n);
     // stamp so that a duplicated / swapped rectangle is identifiable
     for (i, b) in tag.to_le_bytes().iter().enumerate() {
@@ -145,7 +148,7 @@ pub fn make_case(class: u64, idx: u64, seed: u64) -> Case {
                 "plain-stack"
             }
         }
-        1 | 5 => "plain-stack",
+        1 | 5 | 6 => "plain-stack",
         4 => *r.pick(&["plain-stack", "rdpclient-tls", "global-direct"]),
         _ => "global-direct",
     };
@@ -290,6 +293,23 @@ pub fn make_case(class: u64, idx: u64, seed: u64) -> Case {
             }
             pdus.push(Pdu { long: false, sec: 0, updates: vec![Upd::Bitmap(vec![rect(&mut r, 20, 0xAA55)])] });
         }
+        6 => {
+            // a long history on one connection: more updates the client has no use for (unassigned codes, orders, pointer
+            // positions) than a 16-bit counter holds, spread over a few PDUs, bitmaps in between and at the end
+            let per_pdu = 9000usize;
+            let npdu = 8;
+            for pi in 0..npdu {
+                let mut updates = Vec::new();
+                for ui in 0..per_pdu {
+                    updates.push(Upd::Other { code: *r.pick(&[0x0u8, 0x8, 0xA, 0xC, 0xD, 0xF]), data: vec![], name: "unhandled-update" });
+                    if ui % 3000 == 2999 {
+                        updates.push(Upd::Bitmap(vec![rect(&mut r, 8, (pi as u32) << 16 | ui as u32)]));
+                    }
+                }
+                pdus.push(Pdu { long: true, sec: 0, updates });
+            }
+            pdus.push(Pdu { long: false, sec: 0, updates: vec![Upd::Bitmap(vec![rect(&mut r, 20, 0xAA56)])] });
+        }
         5 => {
             // interrupted reads: ordinary sequences over a transport whose read calls are interrupted now and then
             // (EINTR: no data transferred, the call is to be repeated) and that delivers in small segments
@@ -350,7 +370,7 @@ pub fn make_case(class: u64, idx: u64, seed: u64) -> Case {
             p.long = true;
         }
     }
-    Case { path, pdus, class: ["mixed-sequences", "total-length-sweep", "global-direct-large", "zero-length-corners", "many-elements", "interrupted-reads"][class as usize], gen: [class, idx, seed] }
+    Case { path, pdus, class: ["mixed-sequences", "total-length-sweep", "global-direct-large", "zero-length-corners", "many-elements", "interrupted-reads", "long-history-of-unhandled-updates"][class as usize], gen: [class, idx, seed] }
 }
 
 fn describe(c: &Case) -> Value {
@@ -514,7 +534,7 @@ pub fn run(cfg: &Cfg) -> Report {
     crate::tls::prewarm(false);
     let seed = cfg.seed;
     let mut total = Report::new();
-    let plan: Vec<(u64, u64)> = vec![(0, cfg.n(20_000, 1_000_000)), (1, if cfg.quick() { 3000 } else { 32766 }), (2, cfg.n(600, 20_000)), (3, cfg.n(10_000, 300_000)), (4, cfg.n(160, 4_000)), (5, cfg.n(3_000, 200_000))];
+    let plan: Vec<(u64, u64)> = vec![(0, cfg.n(20_000, 1_000_000)), (1, if cfg.quick() { 3000 } else { 32766 }), (2, cfg.n(600, 20_000)), (3, cfg.n(10_000, 300_000)), (4, cfg.n(160, 4_000)), (5, cfg.n(3_000, 200_000)), (6, cfg.n(2, 32))];
     for (class, n) in plan {
         if !cfg.wants(class) {
             continue;
